@@ -826,11 +826,12 @@ def _embed(outer, inner, use_varargs=True, use_varkwargs=True, depth=1):
     _check_no_dupes(names, i_kwoargs.values())
     e_kwoargs.update(i_kwoargs)
 
-    src = dict(i_src, **o_src)
+    src = dict(o_src)
     if o_varargs and use_varargs:
         src.pop(o_varargs.name, None)
     if o_varkwargs and use_varkwargs:
         src.pop(o_varkwargs.name, None)
+    src = dict(i_src, **src)
 
     src['+depths'] = merge_depths(
         o_src.get('+depths', {}),
